@@ -126,6 +126,12 @@ class C16(Prop):
             for y in COMPOSITES:
                 if lit(x) != lit(y) and rng.random() < (1.0 if tier == "thorough" else 0.15):
                     out.append(case("return [%s in [%s], %s in [%s]];" % (lit(x), lit(y), lit(y), lit(x)), enc_value([same(x, y), same(y, x)]), "in-composite"))
+        # different strings with the same 64-bit FNV-1a hash are different keys (D47 repaired)
+        for a, b in [("8yn0iYCKYHlIj4-BwPqk", "GReLUrM4wMqfg9yzV3KQ"), ("gMPflVXtwGDXbIhP73TX", "LtHf1prlU1bCeYZEdqWf"), ("pFuM83THhM-Qw8FI5FKo", ".jPx7rOtTDteKAwvfOEo")]:
+            out.append(case('h = {"%s": 1, "%s": 2}; return [len(h), h["%s"], h["%s"], len(keys(h))];' % (a, b, a, b), enc_value([2, 1, 2, 2]), "hash-collision"))
+            out.append(case('h = {"%s": 1}; return [h["%s"], "%s" in keys(h), h["%s"]];' % (a, b, b, a), enc_value([None, False, 1]), "hash-collision"))
+            out.append(case('n = 0; foreach k, v in {"%s": 1, "%s": 2} { n = n + v; } return n;' % (a, b), "i3", "hash-collision"))
+            out.append(case('return M["%s"] + M["%s"];' % (a, b), "i3", "hash-collision", objs=enc_struct([("M", {a: 1, b: 2})])))
         # random container programs judged against the model
         import gen
         for _ in range(30000 if tier == "thorough" else 300):
